@@ -62,4 +62,20 @@ def removeNode (n : String) : M R Unit := do
     if s.wls.any (fun w => w.node == n) then refuse else removeNodeTxn n
   else refuse
 
+/-- the repair of `NodeResource(fix = true)`: the node's usage is rewritten to the sum of the
+workloads recorded on it -/
+def fixUsage (n : String) (s : State R) : State R :=
+  { s with usage := fun m => if m = n then load s n else s.usage m }
+
+/-- `NodeResource(node, fix)` (resource.go `doGetNodeResource` with inspect): under the pod lock, list
+the node's workloads, let the plugin compare (and with `fix` rewrite) the usage, inspect every
+workload's container (a failing inspect only adds a diff line). -/
+def nodeResource (n : String) (fix : Bool) : M R Unit := do
+  readStep "storeGetNode" n
+  readStep "storeListNodeWorkloads" n
+  step "pluginGetNodeResourceInfo" n (if fix then fixUsage n else fun s => s)
+  let s ← getSt
+  forEach (s.wls.filter (fun w => w.node == n)) (fun _ => do
+    let _ ← attempt (readStep "engineInspect" n); pure ())
+
 end Eru.Cluster
